@@ -134,7 +134,13 @@ def c03(tier, seed):
         # reused functions, tags (shared, substrings of each other, equal to another node's id), references, lists and tuples
         + [dict(kind="sel", pid="C03", exhaustive_n=[], random_shapes=(40 if tier == "quick" else 300), nmin=4, nmax=8, triples_per_shape=30,
                 only=["executed_set_differs_from_documented_closure", "nodes_ran_although_selection_invalid",
-                      "node_ids_of_reused_functions_not_as_documented"], **_seeds(seed + 85, k)) for k in range(2 if tier == "quick" else 8)],
+                      "node_ids_of_reused_functions_not_as_documented"], **_seeds(seed + 85, k)) for k in range(2 if tier == "quick" else 8)]
+        # a DAG described while other threads describe / call DAGs holds every call site of ITS describing function and no foreign one;
+        # a DAG called meanwhile executes (it is not traced into the other thread's description)
+        + [dict(kind="conc16", pid="C03", n_cases=(48 if tier == "quick" else 320), lockset=False,
+                only=["dag_built_during_overlap_differs_from_dag_built_alone", "dag_built_concurrently_differs_from_dag_built_alone",
+                      "dag_call_during_other_threads_build_returned_wrong_value", "dag_call_during_other_threads_build_raised"],
+                **_seeds(seed + 87, k)) for k in range(2 if tier == "quick" else 6)],
         level="exploration", rule=RULE_SCHED + RULE_W3 + "; plus generated programs with nested DAGs (depth 2), shared functions and flags where "
         "every call site (prefixed ids predicted by the monitor) must be entered exactly as often as in the reference run; plus histories of "
         "call / executor(sel) / setup() / setup(sel, incl. the empty list) / deepcopy on one instance where the executed set of every "
@@ -196,6 +202,10 @@ def c08(tier, seed):
     # executors with target / exclude / root selections followed by whole calls on the SAME object: the parallelism of a later
     # execution must not depend on what ran before
     jobs += sched_jobs(tier, seed + 9, gen=dict(nmin=4, nmax=10, mc_max=4, max_deps=1), flavour="both", scale=0.5, selections=True, dfs=False, stress=False)
+    # the slots of an execution are its own: an AsyncDAG awaited in a loop whose (one-worker) default executor is busy with a job of
+    # the application hands nothing to that executor - otherwise the scheduler idles for as long as the application likes
+    jobs += [dict(kind="env", pid="C08", scenarios=["loops"], n_cases=(30 if tier == "quick" else 300), only=["execution_handed_work_to_the_event_loops_default_executor"],
+                  **_seeds(seed + 15, k)) for k in range(2 if tier == "quick" else 6)]
     return dict(
         jobs=jobs, level="exploration", rule=RULE_SCHED + "; thread-only, async-only and mixed DAGs generated separately",
         assumptions=ASSUME_COMMON, required_reach=["c08_blocking_waits", "WAIT_thread", "WAIT_async"],
@@ -215,6 +225,10 @@ def c09(tier, seed):
     jobs += [dict(kind="dbg", only=["__termination_only__"], random_shapes=(40 if tier == "quick" else 400), nmax=8, op_watchdog_s=20, **_seeds(seed + 88, k))
              for k in range(1 if tier == "quick" else 4)]
     # large DAGs (hundreds of nodes: chains, fans, grids, trees) terminate within the same step bound
+    # termination does not depend on the application's executor, on the event loop in use, or on an earlier await that was cancelled
+    jobs += [dict(kind="env", pid="C09", scenarios=["loops"], n_cases=(30 if tier == "quick" else 300),
+                  only=["execution_handed_work_to_the_event_loops_default_executor", "await_in_*", "await_after_a_cancelled_await_in_the_same_loop_*"],
+                  op_watchdog_s=30, **_seeds(seed + 89, k)) for k in range(2 if tier == "quick" else 6)]
     jobs += [dict(kind="scale", n_cases=(2 if tier == "quick" else 8), nmin=150, nmax=(400 if tier == "quick" else 900), **_seeds(seed + 85, k))
              for k in range(2 if tier == "quick" else 8)]
     # "never returns normally while a selected active node has not run" also for executors that are run again after a failure
@@ -369,7 +383,11 @@ def c20(tier, seed):
         + diff_jobs("C20", tier, seed + 3, dict(flags=0.45, nest=0.45, nest_flag=0.5, share_fns=0.8, const_flag=0.6, max_stmts=6), 2, scale=0.4, nj_scale=0.5)
         # a DAG some of whose nodes are DAG OBJECTS (xn(inner_dag)) nested in an outer DAG returns what its direct call returns
         + [dict(kind="env", pid="C20", scenarios=["reentrant"], n_cases=(60 if tier == "quick" else 500),
-                only=["dag_with_a_dag_object_as_node_function_wrong_when_*"], **_seeds(seed + 9, k)) for k in range(2 if tier == "quick" else 6)],
+                only=["dag_with_a_dag_object_as_node_function_wrong_when_*"], **_seeds(seed + 9, k)) for k in range(2 if tier == "quick" else 6)]
+        # a nested call inside a describing function is inlined also while OTHER threads are building DAGs at the same time
+        + [dict(kind="conc16", pid="C20", n_cases=(48 if tier == "quick" else 320), lockset=False,
+                only=["overlapped_build_raised", "concurrent_build_raised", "dag_built_during_overlap_differs_from_dag_built_alone",
+                      "dag_built_concurrently_differs_from_dag_built_alone"], **_seeds(seed + 11, k)) for k in range(2 if tier == "quick" else 6)],
         level="exploration",
         rule=RULE_DIFF + "; nesting to depth 3, inner signatures with required and defaulted parameters, call forms supplying fewer / all "
         "parameters as constants or results, all return shapes, outer unpack / static index / pass-on, the SAME decorated functions used "
@@ -481,7 +499,8 @@ def c15(tier, seed):
         # the original; an await after a CANCELLED await; an inner DAG after it was called from node functions of another DAG
         + [dict(kind="env", pid="C15", scenarios=["copies", "loops", "reentrant"], n_cases=(60 if tier == "quick" else 600),
                 only=["call_on_a_copied_or_copied_from_dag_wrong", "deepcopy_of_a_dag_raised", "await_after_a_cancelled_await_in_the_same_loop_*",
-                      "dag_state_changed_by_calls_from_node_bodies"], **_seeds(seed + 39, k)) for k in range(2 if tier == "quick" else 6)],
+                      "dag_state_changed_by_calls_from_node_bodies", "execution_handed_work_to_the_event_loops_default_executor",
+                      "dag_object_used_as_node_function_got_state_from_the_outer_executions"], **_seeds(seed + 39, k)) for k in range(2 if tier == "quick" else 6)],
         level="exploration",
         rule="histories with setup nodes (calls, executors with selections, setup(targets), deep copies, reloads; both flavours): setup "
         "results are the only state that survives and it is always the first value; random histories (2..8 operations) over {call with full args, call omitting the defaulted argument, executor create+run, executor "
